@@ -200,6 +200,20 @@ func c15Exchange(r *Run) {
 			resps[i] = frame.NewFrame(e.v, 0, &message.VoidResult{})
 		}
 	}
+	// one response whose encoded envelope has an exact size at the edge of what one v5 segment carries
+	// (131071 payload bytes) or of the 64 KiB boundary
+	if e.opts.Capacity >= 4096 && T.Bool("edgesize", 0.25) {
+		targets := []int{131071, 131070, 131066, 131060, 131059, 131058, 131000, 65537, 65536, 65535}
+		target := targets[T.Draw("edgesize.target", len(targets))]
+		k := T.Draw("edgesize.which", nReq)
+		probe := pageFramePadded(e.v, 0, "edge", 0, 1, 1)
+		var pb bytes.Buffer
+		if err := frame.NewRawCodec().EncodeFrame(probe, &pb); err == nil && target > pb.Len() {
+			resps[k] = pageFramePadded(e.v, 0, "edge", 0, 1, 1+target-pb.Len())
+			r.Config["edge_size_response"] = fmt.Sprint(target)
+			r.Probes["responses_of_exact_edge_size"]++
+		}
+	}
 	wantReq := make([]*frame.Frame, nReq)
 	wantResp := make([]*frame.Frame, nReq)
 	gotReq := make([]*frame.Frame, 0, nReq)
